@@ -88,8 +88,8 @@ func c09Tree(expr string) (string, bool) {
 
 type c09Case struct {
 	Kind string `json:"kind"`
-	A    string `json:"a"`           // the spelling under test
-	B    string `json:"b,omitempty"` // what it must mean (same tree), or "" when it must be rejected
+	A    string `json:"a"`            // the spelling under test
+	B    string `json:"b,omitempty"`  // what it must mean (same tree), or "" when it must be rejected
 	B2   string `json:"b2,omitempty"` // an alternative accepted meaning (ties)
 }
 
@@ -352,8 +352,8 @@ func init() {
 			Rule: "token sequences: every ordered pair of the 21 binary operator spellings in 10 nesting contexts and every triple: the bare spelling must build the same ExpressionNode tree (exported fields) as the spelling bracketed by a pinned copy of the precedence relation (equivalence classes, ties grouped in the one direction the parser uses; chains of one operator either way); " +
 				"every token boundary of 47 seed expressions x 7 fillers (space, newline, tab, CRLF, `# comment`), singly and in pairs; redundant parentheses around the whole and around every operand; no-space at brackets; every bracket deleted or duplicated and every binary operator with a missing operand must be rejected; distinct = distinct spelling",
 			Assumptions: []string{"the precedence relation is pinned as classes in c09.go (a renumbering that keeps the order is not an alarm)", "tree equality through exported fields of ExpressionNode/Operation; operator tokens' own text is compared without white space"},
-			Budget: func(t string) time.Duration { return 20 * time.Minute },
-			Run:    c09Run, Replay: c09Replay,
+			Budget:      func(t string) time.Duration { return 20 * time.Minute },
+			Run:         c09Run, Replay: c09Replay,
 		})
 	})
 }
